@@ -60,7 +60,10 @@ VView(r) ==
        /\ Len(r.parts) = Len(e.parts)
        /\ \A i \in DOMAIN e.parts :
             /\ r.parts[i].len = e.parts[i].len
-            /\ r.parts[i].off = e.parts[i].off * r.esize            \* same memory, not a copy
+            \* same memory, not a copy; only the two empty results of the N = 0 chunk functions (constant empty
+            \* slices by design) have no address to compare
+            /\ (~(r.api \in {"chunks_from_slice", "chunks_from_slice_mut"} /\ r.n = 0)
+                  => r.parts[i].off = e.parts[i].off * r.esize)
        /\ (e.cnt >= 0 => r.cnt = e.cnt)
        /\ r.esize = mem.esize
        /\ \A i \in DOMAIN e.parts : e.parts[i].off + e.parts[i].len <= Len(mem.cells)   \* nothing beyond the end
